@@ -258,11 +258,13 @@ impl<'a> TypeGenerator<'a> {
                         field.type_name.as_deref(),
                     )?;
                     let is_compact = path.is_compact();
-                    let is_boxed = field
-                        .type_name
-                        .as_ref()
-                        .map(|e| e.contains("Box<"))
-                        .unwrap_or_default();
+                    // A compact field is emitted as `#[codec(compact)] inner`; `Box<inner>` has no compact encoding.
+                    let is_boxed = !is_compact
+                        && field
+                            .type_name
+                            .as_ref()
+                            .map(|e| e.contains("Box<"))
+                            .unwrap_or_default();
 
                     for param in path.parent_type_params().iter() {
                         type_params.mark_used(param);
@@ -283,11 +285,13 @@ impl<'a> TypeGenerator<'a> {
                     )?;
 
                     let is_compact = path.is_compact();
-                    let is_boxed = field
-                        .type_name
-                        .as_ref()
-                        .map(|e| e.contains("Box<"))
-                        .unwrap_or_default();
+                    // A compact field is emitted as `#[codec(compact)] inner`; `Box<inner>` has no compact encoding.
+                    let is_boxed = !is_compact
+                        && field
+                            .type_name
+                            .as_ref()
+                            .map(|e| e.contains("Box<"))
+                            .unwrap_or_default();
 
                     for param in path.parent_type_params().iter() {
                         type_params.mark_used(param);
